@@ -851,7 +851,15 @@ rf64_command (SF_PRIVATE *psf, int command, void * UNUSED (data), int datasize)
 
 static int
 rf64_set_chunk (SF_PRIVATE *psf, const SF_CHUNK_INFO * chunk_info)
-{	return psf_save_write_chunk (&psf->wchunks, chunk_info) ;
+{	/* The chunks that make up the structure of the file are written by the library alone. */
+	static const char * const reserved [] = { "RIFF", "RIFX", "RF64", "WAVE", "fmt ", "data", "ds64" } ;
+	size_t k ;
+
+	for (k = 0 ; k < ARRAY_LEN (reserved) ; k++)
+		if (strncmp (chunk_info->id, reserved [k], 4) == 0)
+			return SFE_BAD_CHUNK_MARKER ;
+
+	return psf_save_write_chunk (&psf->wchunks, chunk_info) ;
 } /* rf64_set_chunk */
 
 static SF_CHUNK_ITERATOR *
